@@ -1,9 +1,11 @@
 package main
 
 // Go port of the RFC 4180 reader csv_go / csv_read of coq/C13/Spec.v, compared with the extracted
-// Coq reader by CsvCheck.
+// Coq reader by CsvCheck; and a second, independent read-back oracle: Go's own encoding/csv Reader
+// (goCSVCanon), which -- unlike the RFC 4180 reader -- skips empty lines.
 
 import (
+	"encoding/csv"
 	"encoding/hex"
 	"strings"
 )
@@ -127,4 +129,28 @@ func csvCanon(t []byte) string {
 		return "CSVFAIL"
 	}
 	return csvCanonRecs(recs)
+}
+
+// goCSVCanon reads t with Go's own encoding/csv Reader (any number of fields per record, strict
+// quotes; comment = 0 for none) and prints the records like csvCanonRecs.  The Reader rewrites
+// every "\r\n" inside a quoted field to "\n"; the expectation is normalised the same way by the
+// generator (driver/C13/gen.ml crlf_norm).
+func goCSVCanon(t string, comment rune) string {
+	r := csv.NewReader(strings.NewReader(t))
+	r.FieldsPerRecord = -1
+	r.LazyQuotes = false
+	r.TrimLeadingSpace = false
+	r.Comment = comment
+	recs, err := r.ReadAll()
+	if err != nil {
+		return "CSVFAIL"
+	}
+	out := make([][][]byte, len(recs))
+	for i, rec := range recs {
+		out[i] = make([][]byte, len(rec))
+		for j, f := range rec {
+			out[i][j] = []byte(f)
+		}
+	}
+	return csvCanonRecs(out)
 }
